@@ -137,6 +137,35 @@ func (p *Prog) fn(pkgSuffix, name string) *ssa.Function {
 		return nil
 	}
 	f := sp.Func(name)
+	if f == nil {
+		// the function may have become a method (its first parameter the receiver): the
+		// parameters keep their positions, so the rules apply unchanged
+		if pk := p.pkg(pkgSuffix); pk != nil {
+			var found *ssa.Function
+			n := 0
+			sc := pk.Types.Scope()
+			for _, tn := range sc.Names() {
+				named, ok := sc.Lookup(tn).Type().(*types.Named)
+				if !ok {
+					continue
+				}
+				if _, isTN := sc.Lookup(tn).(*types.TypeName); !isTN {
+					continue
+				}
+				for i := 0; i < named.NumMethods(); i++ {
+					if m := named.Method(i); m.Name() == name {
+						if g := p.prog.FuncValue(m); g != nil {
+							found = g
+							n++
+						}
+					}
+				}
+			}
+			if n == 1 {
+				f = found
+			}
+		}
+	}
 	markAnchor(f)
 	return f
 }
@@ -159,6 +188,13 @@ func (p *Prog) method(pkgSuffix, typeName, name string) *ssa.Function {
 		m := named.Method(i)
 		if m.Name() == name {
 			f := p.prog.FuncValue(m)
+			markAnchor(f)
+			return f
+		}
+	}
+	// the method may have become a package-level function that takes the receiver first
+	if sp := p.ssaPkg(pkgSuffix); sp != nil {
+		if f := sp.Func(name); f != nil && len(f.Params) > 0 && typeNameOf(f.Params[0].Type()) == typeName {
 			markAnchor(f)
 			return f
 		}
